@@ -17,6 +17,8 @@ import (
 
 	"verifsim/chainsim"
 	"verifsim/core"
+	"verifsim/keysim"
+	"verifsim/kvsim"
 	"verifsim/storesim"
 )
 
@@ -39,6 +41,8 @@ func engineByName(n string) core.Engine {
 
 var extraEngines = map[string]core.Engine{
 	"storesim": storesim.Engine{},
+	"kvsim":    kvsim.Engine{},
+	"keysim":   keysim.Engine{},
 	// C12-C14: mostly the multistore on its own, every 17th run the whole application (Info / Query / crash in Commit through BaseApp)
 	"store+chain": core.Multi{Label: "store+chain", Engines: map[string]core.Engine{"storesim": storesim.Engine{}, "chainsim": chainsim.Engine{}},
 		Pattern: []string{"storesim", "storesim", "storesim", "storesim", "storesim", "storesim", "storesim", "storesim", "storesim", "storesim", "storesim", "storesim", "storesim", "storesim", "storesim", "storesim", "chainsim"}}, // 17 entries: coprime with the worker count, so every worker gets both kinds
@@ -182,6 +186,10 @@ func main() {
 		if *digests {
 			fmt.Println("probes:", probes)
 		}
+	case "race-stress":
+		// auxiliary to C15 (not deterministic simulation): free-running goroutines on one cachekv.Store in a
+		// binary built with -race; the race detector reports to stderr and makes the process exit 66
+		os.Exit(kvsim.RaceStress(*n))
 	case "show":
 		// debugging aid: run one index and print its violations (and optionally the trace)
 		e := engineByName(*engine)
